@@ -387,6 +387,10 @@ func cliMatch(st *cliState, r *cliRead, metaV5 bool) (ok bool, field string) {
 					return false, "err"
 				}
 			}
+			// ... but a topic the newest response lists is not an unknown topic
+			if len(ps) > 0 && r.err == sarama.ErrUnknownTopicOrPartition {
+				return false, "unknown-topic-error-for-listed-topic"
+			}
 			return true, ""
 		}
 		seen := map[int32]bool{}
